@@ -153,13 +153,19 @@ def unit_scaling_backend(
                             skip_node, residual_node = (l, r) if l in r_deps else (r, l)
                             is_sa = _is_self_attention(skip_node, residual_node)
                             node.meta["residual_add"]["is_self_attention"] = is_sa
-                # Regular adds are not picked up by the unit scaling sweep above as
-                # the inbuilt + operation is handled differently when traced. It is
-                # instead substituted for its unit scaled equivalent here.
                 if not is_residual_add:
-                    logger.info("unit scaling function: %s", node)
-                    kwargs = dict(node.kwargs, constraint=None)  # unconstrained
-                    replace_node_with_function(graph, node, U.add, kwargs=kwargs)
+                    node.meta["plain_add"] = True
+
+        # Regular adds are not picked up by the unit scaling sweep above as
+        # the inbuilt + operation is handled differently when traced. They are
+        # instead substituted for their unit scaled equivalent here (after all
+        # residual-adds have been identified, as the dependency metadata refers
+        # to the nodes that this substitution replaces).
+        for node in graph.nodes:
+            if node.meta.get("plain_add", False):
+                logger.info("unit scaling function: %s", node)
+                kwargs = dict(node.kwargs, constraint=None)  # unconstrained
+                replace_node_with_function(graph, node, U.add, kwargs=kwargs)
 
         # Replace nodes marked as residual-adds with unit scaled equivalent
         for node in graph.nodes:
